@@ -52,7 +52,8 @@ def run_suite(crates):
     def once(extra):
         if os.path.exists(junit): os.remove(junit)
         cmd = "cargo nextest run --no-fail-fast --tool-config-file pb:/w/lib/nextest.toml --profile pb --test-threads 4 --offline " + \
-            " ".join("-p " + c for c in crates) + (" --features dicom-ul/async" if "dicom-ul" in crates else "") + extra
+            " ".join("-p " + c for c in crates) + (" --features dicom-ul/async" if "dicom-ul" in crates else "") + \
+            (" --features dicom-pixeldata/image,dicom-pixeldata/ndarray" if "dicom-pixeldata" in crates else "") + extra
         rc, out = sh(cmd, timeout=7200)
         if not os.path.exists(junit):
             return None, out[-1500:]
@@ -78,7 +79,8 @@ def run_suite(crates):
 def main():
     sd = sys.argv[1].rstrip("/")
     name = os.path.basename(sd)
-    no_suite = "--no-suite" in sys.argv
+    no_suite = "--no-suite" in sys.argv or "--check-only" in sys.argv
+    check_only = "--check-only" in sys.argv   # seed already confirmed (in /verif/seeded): re-run only our check against it
     if "--keep-as" in sys.argv:
         name = sys.argv[sys.argv.index("--keep-as") + 1]
     meta = json.load(open(os.path.join(sd, "meta.json")))
@@ -87,7 +89,7 @@ def main():
     reset_wt()
     cdir = CRATE_DIRS.get(crate)
     demo_dst = None
-    if cdir and os.path.exists(os.path.join(sd, "demo.rs")):
+    if cdir and os.path.exists(os.path.join(sd, "demo.rs")) and not check_only:
         demo_dst = os.path.join(WT, cdir, "tests", "seed_demo.rs")
         os.makedirs(os.path.dirname(demo_dst), exist_ok=True)
         shutil.copy(os.path.join(sd, "demo.rs"), demo_dst)
@@ -123,6 +125,8 @@ def main():
     # our check against the mutated tree
     t0 = time.time()
     rc, out = sh(["./check", pid, "--repo", WT], cwd="/verif", env={"CARGO_TARGET_DIR": None}, timeout=7200)
+    os.makedirs("/tmp/seeds", exist_ok=True)
+    open("/tmp/seeds/check-%s.log" % name, "w").write(out)
     lines = out.strip().split("\n")
     viol = [l for l in lines if l.startswith("VIOLATION")]
     res["check_rc"] = rc
@@ -135,6 +139,18 @@ def main():
     ok = res["steps"].get("demo_passes_without_change") in (True, None) and res["steps"].get("demo_fails_with_change") in (True, None) \
         and res["steps"].get("suite_still_passes") in (True, None)
     res["confirmed"] = bool(ok and res["steps"].get("demo_fails_with_change"))
+    if check_only:
+        dst = os.path.join("/verif/seeded", name)
+        mp = os.path.join(dst, "meta.json")
+        if os.path.exists(mp):
+            meta = json.load(open(mp))
+            meta.setdefault("confirmation", {}).setdefault("earlier_checks", []).append(
+                {k: meta["confirmation"].get(k) for k in ("check_rc", "check_violation", "check_result", "check_kind")})
+            for k in ("check_rc", "check_violation", "check_result", "check_kind", "check_wall_s"):
+                meta["confirmation"][k] = res[k]
+            meta["detected"] = bool(viol); meta["detected_kind"] = res["check_kind"]
+            json.dump(meta, open(mp, "w"), indent=1)
+        reset_wt(); print(json.dumps(res, indent=1)); return 0
     if res["confirmed"]:
         dst = os.path.join("/verif/seeded", name)
         os.makedirs(dst, exist_ok=True)
